@@ -600,6 +600,52 @@ pub open spec fn inner_chain(fs: Seq<BodyFilter>, ct: Option<Seq<char>>) -> Seq<
         match spec_item_new(fs.last(), ct) { Some(i) => p.push(i), None => p }
     }
 }
+// the stages as abstract stream transformers: new state and result (None = internal error) — uninterpreted, deterministic
+pub uninterp spec fn it_filter(i: FilterBodyActionItem, d: Seq<u8>) -> (FilterBodyActionItem, Option<Seq<u8>>);
+pub uninterp spec fn it_end(i: FilterBodyActionItem) -> (FilterBodyActionItem, Option<Seq<u8>>);
+pub open spec fn res_bytes(r: Result<Vec<u8>>) -> Option<Seq<u8>> { match r { Ok(v) => Some(v@), Err(_) => None } }
+pub open spec fn opt_bytes(o: Option<Vec<u8>>) -> Seq<u8> { match o { Some(v) => v@, None => Seq::empty() } }
+impl FilterBodyActionItem {
+    // the per-stage dispatchers are NOT under contract here (their targets are: text stage, HTML stage, codecs); assumed deterministic
+    //@@ fn src/filter/filter_body.rs :: impl FilterBodyActionItem / fn filter -> r
+    //@| opt external_body
+    //@| opt stub
+    //@| ensures (*final(self), res_bytes(r)) == it_filter(*old(self), data@),
+    //@@ fn src/filter/filter_body.rs :: impl FilterBodyActionItem / fn end -> r
+    //@| opt external_body
+    //@| opt stub
+    //@| ensures (*final(self), res_bytes(r)) == it_end(*old(self)),
+}
+// reference: a chunk through the first k stages (a stage is skipped once an earlier stage left nothing)
+pub open spec fn filter_fold(chain: Seq<FilterBodyActionItem>, k: int, d: Seq<u8>) -> Option<Seq<u8>>
+    decreases k
+{
+    if k <= 0 { Some(d) } else {
+        match filter_fold(chain, k - 1, d) {
+            None => None,
+            Some(x) => if k - 1 >= 1 && x.len() == 0 { Some(x) } else { it_filter(chain[k - 1], x).1 },
+        }
+    }
+}
+pub proof fn lemma_filter_fold_stop(chain: Seq<FilterBodyActionItem>, j: int, k: int, d: Seq<u8>)
+    requires 1 <= j <= k, filter_fold(chain, j, d) matches Some(x) && x.len() == 0,
+    ensures filter_fold(chain, k, d) == filter_fold(chain, j, d),
+    decreases k - j,
+{ if j < k { lemma_filter_fold_stop(chain, j, k - 1, d); } }
+// reference: end of stream through the first k stages; the value is what the k-th stage hands on (empty = nothing)
+pub open spec fn end_fold(chain: Seq<FilterBodyActionItem>, k: int) -> Option<Seq<u8>>
+    decreases k
+{
+    if k <= 0 { Some(Seq::empty()) } else {
+        match end_fold(chain, k - 1) {
+            None => None,
+            Some(x) => if x.len() == 0 { it_end(chain[k - 1]).1 } else {
+                // the stage first consumes what the previous stage flushed, and is ended afterwards
+                match it_filter(chain[k - 1], x) { (i2, Some(out)) => match it_end(i2).1 { Some(e) => Some(out + e), None => None }, (_, None) => None }
+            },
+        }
+    }
+}
 // raw input bytes held back by the first stage of the chain when that stage is the HTML stage (no claim for other first stages)
 pub open spec fn chain_held(chain: Seq<FilterBodyActionItem>) -> Seq<u8> {
     if chain.len() > 0 { match chain[0] { FilterBodyActionItem::Html(h) => h.last_buffer@, _ => Seq::empty() } } else { Seq::empty() }
@@ -608,13 +654,34 @@ impl FilterBodyAction {
     //@@ fn src/filter/filter_body.rs :: impl FilterBodyAction / fn is_empty -> r
     //@| ensures r == (self.chain@.len() == 0),
 
-    // ---- error path of the chain (C04: "when a filter ... fails internally, the body passes through byte-for-byte").
-    // The input bytes the first HTML stage still holds back from earlier chunks (they were not emitted yet) belong to the body.
-    // do_filter (iter_mut loop with `?`) is NOT under contract: any result is possible.
+    // ---- chain plumbing (C03 / C04): every stage is an abstract stream transformer (it_filter / it_end: uninterpreted, deterministic);
+    // a chunk flows through the stages in order (stopping once nothing is left), and at end of stream each stage first consumes what the
+    // previous stage flushed and is ended only afterwards
     //@@ fn src/filter/filter_body.rs :: impl FilterBodyAction / fn do_filter -> r
-    //@| opt external_body
-    //@| opt stub
-    //@| ensures true,
+    //@| opt r6:0
+    //@| attr #[verifier::loop_isolation(false)]
+    //@| ensures r matches Ok(out) ==> filter_fold(old(self).chain@, old(self).chain@.len() as int, data@) == Some(out@),
+    //@| forlabel 0: it
+    //@| loopbefore 0: let ghost c0 = self.chain@; let ghost d0 = data@;
+    //@| loop 0: invariant it.snapshot@.remaining().len() == c0.len(),
+    //@|         forall|i: int| 0 <= i < c0.len() ==> *#[trigger] it.snapshot@.remaining()[i] == c0[i],
+    //@|         iter_ok(it.history@, it.index@, it.snapshot@.remaining(), it.snapshot@.remaining()),
+    //@|         filter_fold(c0, it.index@ as int, d0) == Some(data@), it.index@ >= 1 ==> data@.len() > 0,
+    //@| loophead 0: proof { assert(item == it.snapshot@.remaining()[it.index@ as int]); }
+    //@| before `break;`: proof { lemma_filter_fold_stop(c0, it.index@ as int + 1, c0.len() as int, d0); }
+
+    //@@ fn src/filter/filter_body.rs :: impl FilterBodyAction / fn do_end -> r
+    //@| opt r6:0
+    //@| attr #[verifier::loop_isolation(false)]
+    //@| ensures r matches Ok(out) ==> end_fold(old(self).chain@, old(self).chain@.len() as int) == Some(out@),
+    //@| entry broadcast use axiom_iter_seq_vec;
+    //@| forlabel 0: it
+    //@| loopbefore 0: let ghost c0 = self.chain@;
+    //@| loop 0: invariant it.snapshot@.remaining().len() == c0.len(),
+    //@|         forall|i: int| 0 <= i < c0.len() ==> *#[trigger] it.snapshot@.remaining()[i] == c0[i],
+    //@|         iter_ok(it.history@, it.index@, it.snapshot@.remaining(), it.snapshot@.remaining()),
+    //@|         end_fold(c0, it.index@ as int) == Some(opt_bytes(data)), data matches Some(v) ==> v@.len() > 0,
+    //@| loophead 0: proof { assert(item == it.snapshot@.remaining()[it.index@ as int]); }
 
     //@@ fn src/filter/filter_body.rs :: impl FilterBodyAction / fn filter -> r
     //@| ensures old(self).in_error ==> r@ == data@ && final(self).in_error,
